@@ -1426,7 +1426,7 @@ theorem errcheck_empty (M : Mat) (obs samp : List Id) (omd smd : Option (List Md
     (h : obs = [] ∨ samp = []) : errcheck defaultProfile M obs samp omd smd = .ok () := by
   have e0 : fires M obs samp omd smd "empty" = true := by
     rcases h with h | h <;> simp [fires, h]
-  simp [errcheck, kindsSorted, List.find?, e0, defaultProfile]
+  simp [errcheck, kindsSorted, e0, defaultProfile]
 
 theorem finish_empty (M : Mat) (obs samp : List Id) (h : obs = [] ∨ samp = []) :
     finish defaultProfile M obs samp none none = .ok { obs := obs, samp := samp, rows := M.rows } := by
